@@ -53,6 +53,7 @@ namespace
     {
       while (auto stk = m_upstream->next (sc))
 	{
+	  DWGREP_VERIF_STEP ();
 	  auto vp = stk->pop ();
 	  if (auto v = value::as <value_cst> (&*vp))
 	    {
